@@ -11,7 +11,7 @@ from ..gen_kkt import fs
 PID = "C14"
 
 
-def qd_values(rng, n, mask, zero_pivot=False):
+def qd_values(rng, n, mask, zero_pivot=False, zero_at=None):
     """symmetric quasi-definite-ish values on an upper pattern with full diagonal (dyadic, small)"""
     A = [[F(0)] * n for _ in range(n)]
     for i in range(n):
@@ -23,7 +23,7 @@ def qd_values(rng, n, mask, zero_pivot=False):
         A[i][i] = sign[i] * F(rng.randint(3 * n, 5 * n), 1)     # diagonally dominant with mixed signs: every leading minor != 0
     if zero_pivot:
         # make the k-th pivot vanish: set A[k][k] so that the Schur complement is 0 (computed exactly)
-        k = rng.randrange(n)
+        k = rng.randrange(n) if zero_at is None else zero_at
         S = [[A[min(i, j)][max(i, j)] for j in range(n)] for i in range(n)]
         for t in range(k):
             d = S[t][t]
@@ -91,6 +91,20 @@ def make_cases(chk, rng):
                 toks = " ".join(fs(A[min(i, j)][max(i, j)]) for i in range(n) for j in range(n))
                 cases.append({"name": f"d{n}_{up}_{int(zp)}", "lines": [f"ldl.dense {n} {up} {toks} {' '.join(fs(x) for x in b)}"],
                               "meta": {"kind": "dense", "n": n}})
+    # blocked path (n >= 32): an exactly vanishing pivot at the first/last position of a diagonal block and inside one
+    # (block size 8 below 128, 16 below 256): the failure must be reported with the right index, never divided by
+    for n in ([32, 33] + ([130, 257] if thorough else [])):
+        bs = 8 if n < 128 else (16 if n < 256 else 32)
+        for kz in sorted({0, bs - 1, bs, bs + 1, 2 * bs, 3 * bs, n - 1} | ({5 * bs} if 5 * bs < n else set())):
+            if kz >= n:
+                continue
+            for up in (0, 1):
+                full = [[True] * n for _ in range(n)]
+                A = qd_values(rng, n, full, zero_pivot=True, zero_at=kz)
+                b = [F(rng.randint(-3, 3)) for _ in range(n)]
+                toks = " ".join(fs(A[min(i, j)][max(i, j)]) for i in range(n) for j in range(n))
+                cases.append({"name": f"dz{n}_{up}_{kz}", "lines": [f"ldl.dense {n} {up} {toks} {' '.join(fs(x) for x in b)}"],
+                              "meta": {"kind": "dense-zero-pivot", "n": n, "zero_at": kz}})
     # transpose / diagonal scaling / AMD on random rectangular patterns incl. empty rows and columns
     for i in range(300 if thorough else 60):
         r, c = rng.randint(1, 7), rng.randint(1, 7)
